@@ -164,6 +164,24 @@ def discharge(hyps, goal, timeout_ms=20000, use_cvc5=False, seed=0, want_model=T
     if v == 'sat':
         return dict(verdict='refuted', backend='z3/algebraic' if ab.used else 'z3', time_s=total, model=model, reason='')
     reason = why
+    if z3.is_false(goal):
+        # constant-false goal (e.g. an aliasing / type fact decided by the executor): the obligation fails iff the path is
+        # feasible.  Decide feasibility on the quantifier-free part of the hypotheses (a model of that part is reported).
+        qf = [f for f in fs[:-1] if not has_quantifier([f])]
+        v3, dt3, model3, _ = _solve(qf, min(timeout_ms, 5000), seed)
+        total += dt3
+        if v3 == 'sat':
+            return dict(verdict='refuted', backend='z3/qf-feasibility', time_s=total, model=model3,
+                        reason='constant-false goal on a path whose quantifier-free hypotheses are satisfiable')
+    if not z3.is_false(goal) and quant:
+        # candidate counter-model from the quantifier-free part of the hypotheses (NOT a sound refutation by itself:
+        # it only counts if the replay on the real code confirms it; otherwise the obligation stays undecided)
+        qf = [f for f in fs if not has_quantifier([f])]
+        v4, dt4, model4, _ = _solve(qf, min(timeout_ms, 3000), seed)
+        total += dt4
+        if v4 == 'sat':
+            return dict(verdict='refuted', backend='z3/qf-candidate', time_s=total, model=model4, candidate=True,
+                        reason='candidate model of the quantifier-free hypotheses; full query: %s' % reason)
     if use_cvc5:
         v2, dt2 = cvc5_check(fs_struct if ab.used else fs, timeout_ms)
         total += dt2
